@@ -1844,12 +1844,17 @@ class PyCdlib:
          (this may be zero).
         """
         num_bytes_to_add = 0
+        grew = False
         for pvd in self.pvds:
             # The add_to_ptr_size() method returns True if the PVD needs
             # additional space in the PTR to store this directory.  We always
-            # add 4 additional extents for that (2 for LE, 2 for BE).
+            # add 4 additional extents for that (2 for LE, 2 for BE).  All of
+            # the PVDs describe the same path tables, so that is once for all
+            # of them.
             if pvd.add_to_ptr_size(path_table_record.PathTableRecord.record_length(ptr.len_di)):
-                num_bytes_to_add += 4 * self.logical_block_size
+                grew = True
+        if grew:
+            num_bytes_to_add += 4 * self.logical_block_size
 
         return num_bytes_to_add
 
@@ -1865,12 +1870,16 @@ class PyCdlib:
          The number of bytes to remove from the VDs (this may be zero).
         """
         num_bytes_to_remove = 0
+        shrank = False
         for pvd in self.pvds:
             # The remove_from_ptr_size() method returns True if the PVD no
             # longer needs the extra extents in the PTR that stored this
-            # directory.  We always remove 4 additional extents for that.
+            # directory.  We always remove 4 additional extents for that, once
+            # for all of the PVDs (they describe the same path tables).
             if pvd.remove_from_ptr_size(path_table_record.PathTableRecord.record_length(ptr.len_di)):
-                num_bytes_to_remove += 4 * self.logical_block_size
+                shrank = True
+        if shrank:
+            num_bytes_to_remove += 4 * self.logical_block_size
 
         return num_bytes_to_remove
 
